@@ -153,6 +153,8 @@ pub fn rev_num(db: &VDb) -> u32 {
     s.trim_start_matches('R').parse().unwrap_or(0)
 }
 
+pub const KF_PANIC_LEFTOVER: &str = "kf:c22-provisional-memo-left-by-a-panicked-fixpoint-iteration-reused";
+
 pub struct SeqOutcome {
     pub violations: Vec<Violation>,
     pub labels: Vec<&'static str>,
@@ -214,6 +216,8 @@ pub fn run_seq(case: &Case, oracles: &mut [Box<dyn Oracle>], opts: &SeqOpts) -> 
     }
     // revision in which the injected fault fired (fault engine)
     let mut fault_rev: Option<u32> = None;
+    let mut fault_in_cycle_rev: Option<u32> = None;
+    let mut step_rev: std::collections::HashMap<usize, u32> = Default::default();
     let mut fresh_world: Option<(usize, World)> = None;
     for (idx, step, probe) in steps.iter() {
         let idx = *idx;
@@ -316,6 +320,34 @@ pub fn run_seq(case: &Case, oracles: &mut [Box<dyn Oracle>], opts: &SeqOpts) -> 
             }
             fault_rev = Some(rev_num(&world.db));
             let recs = world.take_log();
+            let rev = rev_num(&world.db);
+            step_rev.insert(idx, rev);
+            if case.prog.lattice {
+                // listed finding c22-kf3: the injected panic unwound through a fixpoint iteration
+                let mut open: Vec<u8> = vec![];
+                for r in &recs {
+                    match r {
+                        Rec::Start(LKey::Node(n, _), _) => open.push(*n),
+                        Rec::End(rec) => {
+                            if let LKey::Node(p, _) = rec.key {
+                                if let Some(pos) = open.iter().rposition(|x| *x == p) {
+                                    open.truncate(pos);
+                                }
+                            }
+                        }
+                        _ => {}
+                    }
+                }
+                if std::env::var_os("VH_TRACE").is_some() {
+                    eprintln!("--- step {idx} {step:?}: injected panic; still open: {open:?}; log: {recs:?}");
+                }
+                // the panic may also fire between two iterations (event callback), when no body
+                // is open: any function with cycle recovery that started in this step counts
+                let started_cyclic = recs.iter().any(|r| matches!(r, Rec::Start(LKey::Node(n, _), _) if matches!(case.prog.nodes[*n as usize].kind, Kind::Fix | Kind::FixJoin | Kind::Fall | Kind::Div)));
+                if started_cyclic || open.iter().any(|n| matches!(case.prog.nodes[*n as usize].kind, Kind::Fix | Kind::FixJoin | Kind::Fall | Kind::Div)) {
+                    fault_in_cycle_rev = Some(rev);
+                }
+            }
             let _ = salsa::verif_hooks::drain();
             salsa::verif_hooks::start();
             ix.digest(&recs, rev_num(&world.db), idx);
@@ -360,6 +392,7 @@ pub fn run_seq(case: &Case, oracles: &mut [Box<dyn Oracle>], opts: &SeqOpts) -> 
         };
         let rev = rev_num(&world.db);
         let recs = world.take_log();
+        step_rev.insert(idx, rev);
         let hooks = salsa::verif_hooks::drain();
         salsa::verif_hooks::start();
         let base = ix.pos;
@@ -430,6 +463,15 @@ pub fn run_seq(case: &Case, oracles: &mut [Box<dyn Oracle>], opts: &SeqOpts) -> 
     salsa::verif_hooks::drain();
     for o in oracles.iter_mut() {
         violations.extend(o.finish(case, &ix));
+    }
+    // listed finding c22-kf3: provisional memos of members that completed before the panic stay in
+    // the table; a retry in the same revision takes them for memos of its own first iteration
+    if let Some(fr) = fault_in_cycle_rev {
+        for v in violations.iter_mut() {
+            if v.rule == "value-mismatch" && step_rev.get(&v.step) == Some(&fr) {
+                v.rule = KF_PANIC_LEFTOVER.to_string();
+            }
+        }
     }
     // a mismatch that an oracle classified as a listed-finding pattern ("kf:" rules) also shows
     // up in the fresh-database differential of the same step: keep only the classified one
